@@ -776,6 +776,11 @@ func (e *Engine) instrEffects(sc *FnCtx, fn *ssa.Function, in ssa.Instruction, e
 		eff.ghost["sent"] = true
 		eff.ghost["received"] = true
 		for _, s := range x.States {
+			if s.Dir == types.RecvOnly {
+				et := s.Chan.Type().Underlying().(*types.Chan).Elem()
+				eff.ghost["lastreceived."+sortTag(sc.sortOf(et))] = true
+				eff.sorts["lastreceived."+sortTag(sc.sortOf(et))] = "(Array Int " + sc.sortOf(et) + ")"
+			}
 			if s.Dir == types.SendOnly {
 				et := s.Chan.Type().Underlying().(*types.Chan).Elem()
 				eff.ghost["lastsent."+sortTag(sc.sortOf(et))] = true
@@ -785,6 +790,9 @@ func (e *Engine) instrEffects(sc *FnCtx, fn *ssa.Function, in ssa.Instruction, e
 	case *ssa.UnOp:
 		if x.Op == token.ARROW {
 			eff.ghost["received"] = true
+			et := x.X.Type().Underlying().(*types.Chan).Elem()
+			eff.ghost["lastreceived."+sortTag(sc.sortOf(et))] = true
+			eff.sorts["lastreceived."+sortTag(sc.sortOf(et))] = "(Array Int " + sc.sortOf(et) + ")"
 		}
 	case *ssa.Call:
 		if _, isBuiltin := x.Common().Value.(*ssa.Builtin); !isBuiltin {
@@ -795,7 +803,8 @@ func (e *Engine) instrEffects(sc *FnCtx, fn *ssa.Function, in ssa.Instruction, e
 		eff.ghost["calls"] = true
 		e.callEffects(sc, fn, x.Common(), eff, depth, fr)
 	case *ssa.Go:
-		// not modelled
+		eff.ghost["calls"] = true
+		// the spawned call itself is not modelled
 	}
 }
 
